@@ -6,9 +6,15 @@ package tcp
 // SNIProxy / DynamicProxy, by the scripted endpoints of verifx.RunTunnel.
 
 import (
+	"crypto/ecdsa"
+	"crypto/elliptic"
+	"crypto/rand"
 	"crypto/tls"
+	"crypto/x509"
+	"crypto/x509/pkix"
 	"encoding/json"
 	"fmt"
+	"math/big"
 	"net"
 	"net/url"
 	"sync"
@@ -63,29 +69,65 @@ func c09Hellos() (map[string][]byte, error) {
 	return out, nil
 }
 
-// c09Lane is one proxy per path kind in front of one scripted upstream.
+// c09MintCert makes the certificate of the TLS terminating listener and a client configuration
+// that trusts it.
+func c09MintCert() (tls.Certificate, *tls.Config, error) {
+	key, err := ecdsa.GenerateKey(elliptic.P256(), rand.Reader)
+	if err != nil {
+		return tls.Certificate{}, nil, err
+	}
+	tpl := &x509.Certificate{SerialNumber: big.NewInt(9), Subject: pkix.Name{CommonName: "c09.example.com"},
+		DNSNames: []string{"c09.example.com"}, NotBefore: time.Now().Add(-time.Hour), NotAfter: time.Now().Add(24 * time.Hour),
+		KeyUsage: x509.KeyUsageDigitalSignature | x509.KeyUsageCertSign, ExtKeyUsage: []x509.ExtKeyUsage{x509.ExtKeyUsageServerAuth},
+		BasicConstraintsValid: true, IsCA: true}
+	der, err := x509.CreateCertificate(rand.Reader, tpl, tpl, &key.PublicKey, key)
+	if err != nil {
+		return tls.Certificate{}, nil, err
+	}
+	leaf, err := x509.ParseCertificate(der)
+	if err != nil {
+		return tls.Certificate{}, nil, err
+	}
+	pool := x509.NewCertPool()
+	pool.AddCert(leaf)
+	return tls.Certificate{Certificate: [][]byte{der}, PrivateKey: key, Leaf: leaf},
+		&tls.Config{RootCAs: pool, ServerName: "c09.example.com", MinVersion: tls.VersionTLS12}, nil
+}
+
+// c09Lane is one proxy per path kind in front of one scripted upstream (and a second upstream
+// whose kernel holds little: what it does not read stays queued inside the proxy's connection).
 type c09Lane struct {
-	upL     *net.TCPListener
-	upAddr  string
-	pp      atomic.Bool // PROXY option of the case being played
-	servers []*Server
-	addr    map[string]string
+	upL, slowL       *net.TCPListener
+	upAddr, slowAddr string
+	pp               atomic.Bool // PROXY option of the case being played
+	slow             atomic.Bool // the case being played uses the slow upstream
+	servers          []*Server
+	addr             map[string]string
 }
 
 func (l *c09Lane) target(string) *route.Target {
-	return &route.Target{URL: &url.URL{Scheme: "tcp", Host: l.upAddr}, ProxyProto: l.pp.Load()}
+	host := l.upAddr
+	if l.slow.Load() {
+		host = l.slowAddr
+	}
+	return &route.Target{URL: &url.URL{Scheme: "tcp", Host: host}, ProxyProto: l.pp.Load()}
 }
 
-func c09NewLane() (*c09Lane, error) {
+func c09NewLane(cert tls.Certificate) (*c09Lane, error) {
 	l := &c09Lane{addr: map[string]string{}}
 	var err error
 	if l.upL, l.upAddr, err = verifx.ListenFree(); err != nil {
+		return nil, err
+	}
+	if l.slowL, l.slowAddr, err = verifx.ListenFreeRcvbuf(4096); err != nil {
+		l.close()
 		return nil, err
 	}
 	for path, h := range map[string]Handler{
 		"tcp": &Proxy{Lookup: l.target},
 		"sni": &SNIProxy{Lookup: l.target},
 		"dyn": &DynamicProxy{Lookup: l.target},
+		"tls": &Proxy{Lookup: l.target}, // proto=tcp listener with a certificate source: fabio terminates TLS
 	} {
 		ln, addr, err := verifx.ListenFree()
 		if err != nil {
@@ -95,7 +137,11 @@ func c09NewLane() (*c09Lane, error) {
 		srv := &Server{Addr: addr, Handler: h}
 		l.servers = append(l.servers, srv)
 		l.addr[path] = addr
-		go srv.Serve(ln)
+		if path == "tls" {
+			go srv.Serve(tls.NewListener(ln, &tls.Config{Certificates: []tls.Certificate{cert}}))
+		} else {
+			go srv.Serve(ln)
+		}
 	}
 	return l, nil
 }
@@ -106,6 +152,9 @@ func (l *c09Lane) close() {
 	}
 	if l.upL != nil {
 		l.upL.Close()
+	}
+	if l.slowL != nil {
+		l.slowL.Close()
 	}
 }
 
@@ -118,6 +167,21 @@ func TestVerifC09(t *testing.T) {
 	if err != nil {
 		t.Fatal(err)
 	}
+	cert, tlsClient, err := c09MintCert()
+	if err != nil {
+		t.Fatal(err)
+	}
+	// the failing-direction scenarios rest on one property of tcp, probed on a direct connection
+	queueOK, queueMsg := true, ""
+	for i := range cases {
+		if cases[i].Sc.USlow == 1 {
+			queueOK, queueMsg = verifx.TCPKeepsQueueAcrossReset()
+			break
+		}
+	}
+	if !queueOK {
+		verifx.Emit(map[string]any{"kind": "note", "msg": "failing-direction scenarios not played: " + queueMsg})
+	}
 	nl := verifx.EnvInt("VERIF_LANES", 8)
 	jobs := make(chan *verifx.TunnelCase, 64)
 	var wg sync.WaitGroup
@@ -125,10 +189,11 @@ func TestVerifC09(t *testing.T) {
 	var seen sync.Map
 	var sampleMu sync.Mutex
 	var samples []string
-	perPath := map[string]*int64{"tcp": new(int64), "sni": new(int64), "dyn": new(int64)}
+	perPath := map[string]*int64{"tcp": new(int64), "sni": new(int64), "dyn": new(int64), "tls": new(int64)}
+	var errFamily, unsupported int64
 	var lanes []*c09Lane
 	for i := 0; i < nl; i++ {
-		lane, err := c09NewLane()
+		lane, err := c09NewLane(cert)
 		if err != nil {
 			t.Fatal(err)
 		}
@@ -156,7 +221,21 @@ func TestVerifC09(t *testing.T) {
 					verifx.Emit(map[string]any{"kind": "error", "msg": fmt.Sprintf("case %d: path %q / hello %q not playable here", c.ID, c.Path, c.Hello)})
 					continue
 				}
-				env := &verifx.TunnelEnv{ProxyAddr: addr, UpL: lane.upL, Before: func(c *verifx.TunnelCase) { lane.pp.Store(c.Sc.Proxy == 1) }}
+				if c.Sc.USlow == 1 && !queueOK {
+					atomic.AddInt64(&unsupported, 1)
+					continue
+				}
+				env := &verifx.TunnelEnv{ProxyAddr: addr, UpL: lane.upL, Before: func(c *verifx.TunnelCase) {
+					lane.pp.Store(c.Sc.Proxy == 1)
+					lane.slow.Store(c.Sc.USlow == 1)
+				}}
+				if c.Sc.USlow == 1 {
+					env.UpL = lane.slowL
+					atomic.AddInt64(&errFamily, 1)
+				}
+				if c.Path == "tls" {
+					env.TLSClient = tlsClient
+				}
 				res := verifx.RunTunnel(env, c, hello)
 				atomic.AddInt64(&ran, 1)
 				atomic.AddInt64(perPath[c.Path], 1)
@@ -172,9 +251,13 @@ func TestVerifC09(t *testing.T) {
 					verifx.Emit(map[string]any{"kind": "skip", "case": c, "msg": msg})
 				default:
 					atomic.AddInt64(&evals, 2)
-					verifx.Fail(c, map[string]any{"path": c.Path, "clause": clause}, "%s", msg)
+					feat := map[string]any{"path": c.Path, "clause": clause}
+					if c.Sc.CMode == "abort" {
+						feat["end"] = res.UEnd() // how the upstream's connection ended: eof | reset | error
+					}
+					verifx.Fail(c, feat, "%s", msg)
 				}
-				b, _ := json.Marshal([]any{c.Sc, c.Path, c.Spell, c.Split, c.Hello})
+				b, _ := json.Marshal([]any{c.Sc, c.Path, c.Spell, c.Split, c.Hello, c.TLSVer, c.Cork})
 				if _, dup := seen.LoadOrStore(verifx.Hash(b), true); !dup && len(res.ExpU) > 0 && len(res.ExpC) > 0 {
 					atomic.AddInt64(&nontrivial, 1)
 				}
@@ -196,6 +279,7 @@ func TestVerifC09(t *testing.T) {
 	wg.Wait()
 	verifx.Summary(map[string]any{"cases": len(cases), "ran": ran, "evaluations": evals, "distinct_nontrivial": nontrivial,
 		"hangs": hangs, "skipped": skipped, "aborted": aborted, "samples": samples,
-		"tcp": *perPath["tcp"], "sni": *perPath["sni"], "dyn": *perPath["dyn"],
+		"tcp": *perPath["tcp"], "sni": *perPath["sni"], "dyn": *perPath["dyn"], "tls": *perPath["tls"],
+		"failing_direction": errFamily, "unsupported": unsupported,
 		"hello_sizes": map[string]int{"tls13": len(hellos["tls13"]), "tls12": len(hellos["tls12"])}})
 }
